@@ -78,6 +78,8 @@ class ExactModel(gpytorch.models.ExactGP):
             self.covar_module = base
         elif fam == "kiss":
             self.covar_module = K.ScaleKernel(K.GridInterpolationKernel(K.RBFKernel(), grid_size=10, grid_bounds=[(-0.6, 1.6)] * d))
+        elif fam == "kiss_auto":  # no grid_bounds: the grid is fitted to the data it sees (and re-fitted when inputs leave its range)
+            self.covar_module = K.ScaleKernel(K.GridInterpolationKernel(K.RBFKernel(), grid_size=10, num_dims=d))
         elif fam == "sgpr":
             g = util.gen(seed, "Z")
             self.covar_module = K.InducingPointKernel(base, inducing_points=util.rand(g, 3, d), likelihood=lik)
